@@ -539,6 +539,8 @@ init_io(void)
   request_close = false;
   finish = false;
   deque_init(output_q, out_slots);
+  VERIF_EV("\"e\":\"QueueCaps\",\"output_q\":%u,\"tout\":%u", output_q.modulus,
+           out_slots);
 
   sink_thread = xcreate(&sink_thread_entry);
   source_thread = xcreate(&source_thread_entry);
